@@ -44,7 +44,19 @@ def _c09(tier, seed):
     return ps + families.canaries_deref(ps)
 
 
+def _c10(tier, seed):
+    ps = families.c10(tier, seed)
+    return ps + families.canaries_into(ps)
+
+
 PROPS = {
+    "C10": {
+        "family": _c10,
+        "bounds": {"quick": "sole-field structs x 9 (field type, 1-3 targets) x {plain, method} x {named,tuple}; 8 multi-field layouts x designation choices (marker / unique type, <=8 each) x {plain, method}; enums 1-4 variants x {1,2} targets with per-variant designation",
+                   "thorough": "all designation combinations; +60 sampled enums"},
+        "trusted": ["vstd IntoSpecImpl/FromSpec for integer widenings"], "assumptions": ["'for no other T' is a type-level fact and is not decided"],
+        "explanation": "each generated Into<T>::into verified verbatim against the designated field / method / conversion (IntoSpecImpl), Kani mirrors it on the real derive",
+    },
     "C09": {
         "family": _c09,
         "bounds": {"quick": "structs named/tuple n<=3 x every Deref marker position x every DerefMut marker position (or none); reference-typed designated fields; enums 1-3 variants of 1-3 fields with differing marker positions, with/without DerefMut; all fields share one type so only position distinguishes them",
